@@ -1,23 +1,53 @@
 PROP = {
     "ready": True,
+    # header-only code under test: no repository units. Two TUs because std_portable.h
+    # redefines igris::static_vector / igris::static_string (C14_portable.cpp compiles
+    # the header into namespace igris_portable so the twins stay distinct at link time).
     "harness": ["harness/C14.cpp", "harness/C14_portable.cpp"],
     "units": [],
     "targets": [
-        {"name": "svec_int", "quick": 200000, "thorough": 6000000, "maxlen": 256},
-        {"name": "svec_tracked", "quick": 200000, "thorough": 6000000, "maxlen": 256},
-        {"name": "sstring", "quick": 200000, "thorough": 6000000, "maxlen": 200},
-        {"name": "portable_svec_int", "quick": 200000, "thorough": 6000000, "maxlen": 256},
-        {"name": "portable_svec_tracked", "quick": 200000, "thorough": 6000000, "maxlen": 256},
-        {"name": "portable_sstring", "quick": 200000, "thorough": 6000000, "maxlen": 200},
+        {"name": "svec_int", "quick": 400000, "thorough": 12000000, "maxlen": 256},
+        {"name": "svec_tracked", "quick": 300000, "thorough": 10000000, "maxlen": 256},
+        {"name": "sstring", "quick": 400000, "thorough": 12000000, "maxlen": 200},
+        {"name": "portable_svec_int", "quick": 400000, "thorough": 12000000, "maxlen": 256},
+        {"name": "portable_svec_tracked", "quick": 300000, "thorough": 10000000, "maxlen": 256},
+        {"name": "portable_sstring", "quick": 400000, "thorough": 12000000, "maxlen": 200},
     ],
     "fuzz": [
         {"name": "svec_tracked", "secs": 40, "maxlen": 256},
+        {"name": "portable_svec_tracked", "secs": 40, "maxlen": 256},
         {"name": "portable_sstring", "secs": 40, "maxlen": 200},
     ],
 }
 
 TEXT = {
-    "technique": "TODO",
-    "level": "TODO",
-    "note": "TODO",
+    "technique": "model-based property testing of operation histories: static_vector<int|Tracked,N> and "
+                 "static_string<N> (primary headers and the std_portable.h twins) against a std::vector / "
+                 "std::string reference cut to its first N elements after every operation; every object sits "
+                 "between two 32-byte pattern-filled, ASan-poisoned canaries in an exactly-sized heap block; an "
+                 "instrumented element type (owns a heap byte, registered in a global live set) makes every "
+                 "construction/destruction/assignment/read on a wrong address a distinct failure; ASan/UBSan; "
+                 "libFuzzer on the same targets in thorough",
+    "level": "Generated-input exploration: histories of up to 40 operations over up to 3 objects of one type, "
+             "capacities N in {1,2,3,5,8} (strings also 12): construction from nothing, a copy, a moved object, "
+             "an initializer list, iterator ranges of a vector / list / exactly-sized pointer range / "
+             "static_vector<T,2N> / another object, C strings and (pointer,length) pairs, all of length 0..2N; "
+             "push_back, emplace_back, operator+=, std::back_inserter of 0..2N values, resize(0..2N), "
+             "erase(first,last) over every valid range, clear, copy and move assignment including "
+             "self-assignment, operator[] writes, split, destruction. After every operation: canaries intact, "
+             "size() <= N, room() == N - size(), contents (operator[], data(), begin..end, front/back, c_str "
+             "incl. terminator, const and non-const) equal to the reference prefix, and for Tracked elements "
+             "the live set is exactly the set of container elements; at the end constructions == destructions. "
+             "Millions of histories per run, the large majority offering more than the remaining room at least "
+             "once. Nothing is established beyond the explored histories, capacities and element types.",
+    "note": "Trusted: libstdc++ std::vector/std::string as the reference, clang ASan/UBSan and manual ASan "
+            "poisoning, the harness' Tracked type. The std_portable.h twins are compiled into a renamed "
+            "namespace (harness-side #define) so both implementations are really exercised in one binary. A "
+            "moved-from object is only required to be valid (size() <= N, elements alive); the reference then "
+            "adopts what it exposes. Not judged: static_string::operator[] of the primary header (ill-formed "
+            "when instantiated: returns &data[pos] as char&), static_string::find, the tokenisation of "
+            "split() (only its capacity clauses), unbounded_array (not a fixed-capacity container), capacities "
+            "above 12 and over-aligned or throwing element types. Operations covered by a known finding "
+            "(known_findings.json, C14-*) are skipped for exactly the operand class that fails (e.g. clear() "
+            "of a non-empty container of non-trivial elements) and counted as known-finding hits.",
 }
